@@ -446,3 +446,203 @@ def gen_prog() -> tuple[str, dict]:
 
 
 GEN = {'VmfProg_gen': gen_prog}
+
+
+# ---------------------------------------------------------------------------------------------- field-level glue
+def _regex_rowreader(pat: str, where: str) -> tuple[str, int, int, int | None]:
+    """prefix + one group of digits: prefix(\\d+) prefix([0-9]) prefix([0-9]{1,2}) ... -> (prefix, skip, min, max)."""
+    m = re.fullmatch(r'([A-Za-z_]*)\((\\d|\[0-9\])(\+|\*|\{(\d+)(,(\d*))?\})?\)', pat)
+    if not m:
+        raise TranslateError(f'{where}: row key pattern {pat!r} not recognised')
+    prefix, quant = m.group(1), m.group(3)
+    if quant is None:
+        lo, hi = 1, 1
+    elif quant == '+':
+        lo, hi = 1, None
+    elif quant == '*':
+        lo, hi = 0, None
+    else:
+        lo = int(m.group(4))
+        hi = lo if m.group(5) is None else (int(m.group(6)) if m.group(6) else None)
+    return prefix, len(prefix), lo, hi
+
+
+def row_reader(funcs: dict[str, ast.FunctionDef], tree: ast.Module) -> tuple[str, int, int, int | None, str]:
+    """How Side._iter_disp_row recognises a row key and computes the row index."""
+    fn = funcs.get('Side._iter_disp_row')
+    if fn is None:
+        raise TranslateError('Side._iter_disp_row not found')
+    loops = [n for n in fn.body if isinstance(n, ast.For)]
+    if len(loops) != 1 or not isinstance(loops[0].target, ast.Name):
+        raise TranslateError('Side._iter_disp_row: a single loop over the rows is expected')
+    var = loops[0].target.id
+    nm = f'{var}.name'
+    body = loops[0].body
+    y_assign = [n for n in ast.walk(loops[0]) if isinstance(n, ast.Assign) and ast.unparse(n.targets[0]) == 'y']
+    if len(y_assign) != 1:
+        raise TranslateError('Side._iter_disp_row: a single assignment of the row index y is expected')
+    yv = y_assign[0].value
+    if not (isinstance(yv, ast.Call) and ast.unparse(yv.func) == 'int' and len(yv.args) == 1 and not yv.keywords):
+        raise TranslateError(f'Side._iter_disp_row: row index is not int(...): {ast.unparse(yv)}')
+    arg = yv.args[0]
+    first = body[0]
+    # form 1: if name.startswith(P): y = int(name[K:]) else: continue
+    if isinstance(first, ast.If) and isinstance(first.test, ast.Call) and ast.unparse(first.test.func) == f'{nm}.startswith' \
+            and len(first.test.args) == 1 and isinstance(first.test.args[0], ast.Constant) and isinstance(first.test.args[0].value, str):
+        prefix = first.test.args[0].value
+        if y_assign[0] not in first.body or not (len(first.orelse) == 1 and isinstance(first.orelse[0], ast.Continue)):
+            raise TranslateError('Side._iter_disp_row: startswith form: index must be computed in the branch, other keys skipped')
+        m = re.fullmatch(re.escape(nm) + r'\[(\d+):\]', ast.unparse(arg))
+        if not m:
+            raise TranslateError(f'Side._iter_disp_row: index expression {ast.unparse(arg)}')
+        return prefix, int(m.group(1)), 1, None, 'startswith'
+    # form 2: match = <re>.fullmatch(name) / re.fullmatch(pat, name); if match is None: continue; y = int(match.group(1))
+    if isinstance(first, ast.Assign) and isinstance(first.value, ast.Call) and len(first.targets) == 1 and isinstance(first.targets[0], ast.Name):
+        mv = first.targets[0].id
+        call = first.value
+        f = ast.unparse(call.func)
+        pat = None
+        if f == 're.fullmatch' and len(call.args) == 2 and ast.unparse(call.args[1]) == nm and isinstance(call.args[0], ast.Constant):
+            pat = call.args[0].value
+        elif f.endswith('.fullmatch') and len(call.args) == 1 and ast.unparse(call.args[0]) == nm:
+            cname = f[:-len('.fullmatch')]
+            for n in tree.body:
+                tg = n.targets[0] if isinstance(n, ast.Assign) else n.target if isinstance(n, ast.AnnAssign) else None
+                if tg is not None and ast.unparse(tg) == cname and isinstance(n.value, ast.Call) and ast.unparse(n.value.func) == 're.compile' \
+                        and len(n.value.args) == 1 and isinstance(n.value.args[0], ast.Constant):
+                    pat = n.value.args[0].value
+        if not isinstance(pat, str):
+            raise TranslateError(f'Side._iter_disp_row: key test {ast.unparse(call)} is not a fullmatch of a literal pattern')
+        guard = body[1] if len(body) > 1 else None
+        if not (isinstance(guard, ast.If) and ast.unparse(guard.test) in (f'{mv} is None', f'not {mv}') and len(guard.body) == 1
+                and isinstance(guard.body[0], ast.Continue) and not guard.orelse):
+            raise TranslateError('Side._iter_disp_row: regex form: `if match is None: continue` expected')
+        if ast.unparse(arg) != f'{mv}.group(1)':
+            raise TranslateError(f'Side._iter_disp_row: index expression {ast.unparse(arg)}')
+        p, k, lo, hi = _regex_rowreader(pat, 'Side._iter_disp_row')
+        return p, k, lo, hi, 'regex'
+    raise TranslateError('Side._iter_disp_row: the way row keys are recognised is not one of the known forms')
+
+
+def row_writers(b: Builder) -> list[tuple[str, str]]:
+    """(method, literal prefix) of every written key of the form  prefix{y}  with y the loop variable of a range()."""
+    out = []
+    for fn, key, _val in sorted(b.site_set):
+        m = re.fullmatch(r"\[Lit\('([A-Za-z_]+)'\), Ip\(Num,y\)\]", key)
+        if m:
+            out.append((fn, m.group(1)))
+    if not out:
+        raise TranslateError('no written row key of the form prefix{y} found')
+    return out
+
+
+def output_seps(tree: ast.Module, funcs: dict[str, ast.FunctionDef]) -> dict:
+    """Separator characters of Output.as_keyvalue / Output.parse and the order of the fields."""
+    esc = None
+    for n in tree.body:
+        tg = n.targets[0] if isinstance(n, ast.Assign) else n.target if isinstance(n, ast.AnnAssign) else None
+        if tg is not None and ast.unparse(tg) == 'OUTPUT_SEP' and n.value is not None:
+            v = n.value
+            if isinstance(v, ast.Constant) and isinstance(v.value, str) and len(v.value) == 1:
+                esc = ord(v.value)
+            elif isinstance(v, ast.Call) and ast.unparse(v.func) == 'chr' and isinstance(v.args[0], ast.Constant):
+                esc = int(v.args[0].value)
+    if esc is None:
+        raise TranslateError('OUTPUT_SEP: a one-character constant is expected')
+    kv = funcs['Output.as_keyvalue']
+    sep_def = [n for n in ast.walk(kv) if isinstance(n, ast.Assign) and ast.unparse(n.targets[0]) == 'sep']
+    if len(sep_def) != 1 or not isinstance(sep_def[0].value, ast.IfExp):
+        raise TranslateError('Output.as_keyvalue: sep = A if self.comma_sep else B expected')
+    ie = sep_def[0].value
+    if ast.unparse(ie.test) != 'self.comma_sep' or not (isinstance(ie.body, ast.Constant) and isinstance(ie.body.value, str) and len(ie.body.value) == 1) \
+            or ast.unparse(ie.orelse) not in ('self.SEP', 'OUTPUT_SEP'):
+        raise TranslateError(f'Output.as_keyvalue: separator choice {ast.unparse(ie)}')
+    w_comma = ord(ie.body.value)
+    rets = [n for n in ast.walk(kv) if isinstance(n, ast.Return) and n.value is not None]
+    pieces = T.flatten('Output.as_keyvalue', rets[0].value)
+    r = T._parse_line('Output.as_keyvalue', T._split_lines(pieces)[0])
+    if r[0] != 'kv':
+        raise TranslateError('Output.as_keyvalue: not a keyvalue line')
+    worder, cur = [], []
+    for p in r[2]:
+        if p.kind == 'ip' and p.cls == 'Sep':
+            worder.append(cur)
+            cur = []
+        else:
+            cur.append(p.field if p.kind == 'ip' else 'lit:' + p.text)
+    worder.append(cur)
+    canon = {'self.target': 'target', 'self.exp_in()': 'input', 'self.params': 'params', 'self.delay': 'delay', 'self.times': 'times'}
+    if any(len(x) != 1 or x[0] not in canon for x in worder):
+        raise TranslateError(f'Output.as_keyvalue: value fields {worder}')
+    w_fields = [canon[x[0]] for x in worder]
+    # reader
+    ps = funcs['Output.parse']
+    src = ast.unparse(ps)
+    first_if = next((n for n in ps.body if isinstance(n, ast.If)), None)
+    if first_if is None or ast.unparse(first_if.test) != 'OUTPUT_SEP in prop.value':
+        raise TranslateError('Output.parse: `if OUTPUT_SEP in prop.value` expected')
+    if 'vals = prop.value.split(OUTPUT_SEP)' not in ast.unparse(first_if.body[1] if len(first_if.body) > 1 else first_if.body[0]):
+        raise TranslateError('Output.parse: split on OUTPUT_SEP expected')
+    else_split = [n for n in first_if.orelse if isinstance(n, ast.Assign) and ast.unparse(n.targets[0]) == 'vals']
+    m = re.fullmatch(r"prop\.value\.split\('(.)'\)", ast.unparse(else_split[0].value)) if else_split else None
+    if not m:
+        raise TranslateError('Output.parse: else-branch split')
+    r_comma = ord(m.group(1))
+    sep_flags = (ast.unparse(first_if.body[0]), ast.unparse(first_if.orelse[0]))
+    if sep_flags != ('sep = False', 'sep = True'):
+        raise TranslateError(f'Output.parse: comma_sep flags {sep_flags}')
+    unpack = [n for n in ast.walk(ps) if isinstance(n, ast.Assign) and isinstance(n.targets[0], ast.Tuple) and ast.unparse(n.value) == 'vals']
+    if len(unpack) != 2:
+        raise TranslateError('Output.parse: two unpackings of vals expected')
+    u1 = [ast.unparse(e) for e in unpack[0].targets[0].elts]
+    u2 = [ast.unparse(e) for e in unpack[1].targets[0].elts]
+    if u2 != [u1[0], u1[1], '*param_lst', u1[3], u1[4]] or f"{u1[2]} = '{chr(r_comma)}'.join(param_lst)" not in src:
+        raise TranslateError(f'Output.parse: recombination of extra separators {u2}')
+    if 'sep and len(vals) > 5' not in src:
+        raise TranslateError('Output.parse: recombination guard')
+    # which constructor argument each unpacked variable feeds
+    ctor = [n for n in ast.walk(ps) if isinstance(n, ast.Call) and ast.unparse(n.func) == 'cls']
+    if len(ctor) != 1:
+        raise TranslateError('Output.parse: constructor call')
+    init_args = [a.arg for a in funcs['Output.__init__'].args.args][1:]
+    canon_init = {'targ': 'target', 'inp': 'input', 'param': 'params', 'delay': 'delay', 'times': 'times', 'out': 'output'}
+    feeds: dict[str, str] = {}
+    for a, v in list(zip(init_args, ctor[0].args)) + [(k.arg, k.value) for k in ctor[0].keywords]:
+        names = [x.id for x in ast.walk(v) if isinstance(x, ast.Name)]
+        for nm_ in names:
+            if nm_ in u1 and a in canon_init:
+                feeds[nm_] = canon_init[a]
+    r_fields = [feeds.get(v, '?') for v in u1]
+    return {'esc': esc, 'w_comma': w_comma, 'r_comma': r_comma, 'w_fields': w_fields, 'r_fields': r_fields, 'n_exact': len(u1)}
+
+
+def gen_fields() -> tuple[str, dict]:
+    src = src_text('vmf.py')
+    tree = ast.parse(src)
+    funcs = T._funcs(tree)
+    b = analyse()
+    prefix, skip, lo, hi, form = row_reader(funcs, tree)
+    writers = row_writers(b)
+    o = output_seps(tree, funcs)
+    fw, fr = T.fixup_index_shape(funcs)
+    order = ['target', 'input', 'params', 'delay', 'times']
+    lines = ['(* GENERATED by translate/c06_prog.py from src/srctools/vmf.py. Do not edit. *)',
+             'From Coq Require Import NArith List String.', 'From SV Require Import Fmt.VmfText Fmt.VmfFields.', 'Import ListNotations.',
+             'Open Scope N_scope.', '',
+             f'(* Side._iter_disp_row ({form} form): prefix tested, characters skipped before int(), digit count accepted *)',
+             f'Definition gen_rowreader : rowreader := mk_rowreader {T._coq_str(prefix)} {skip}%nat {lo}%nat '
+             f'{"None" if hi is None else f"(Some {hi}%nat)"}.',
+             '(* literal prefixes of the written keys  prefix{y} *)',
+             'Definition gen_row_prefixes : list (list N) := [' + '; '.join(T._coq_str(p) for p in sorted({p for _, p in writers})) + '].',
+             '(* Output.as_keyvalue / Output.parse: separators, field order (0 target, 1 input, 2 params, 3 delay, 4 times) *)',
+             f'Definition gen_out_esc : N := {o["esc"]}.',
+             f'Definition gen_out_write_comma : N := {o["w_comma"]}.',
+             f'Definition gen_out_read_comma : N := {o["r_comma"]}.',
+             'Definition gen_out_write_order : list N := [' + '; '.join(str(order.index(x)) if x in order else '99' for x in o['w_fields']) + '].',
+             'Definition gen_out_read_order : list N := [' + '; '.join(str(order.index(x)) if x in order else '99' for x in o['r_fields']) + '].',
+             '']
+    return '\n'.join(lines), {'rowreader': {'prefix': prefix, 'skip': skip, 'min': lo, 'max': hi, 'form': form}, 'row_writers': writers,
+                              'output': o, 'fixup': [fw, fr]}
+
+
+GEN['VmfFieldsCfg_gen'] = gen_fields
